@@ -342,11 +342,21 @@ fn check_derivation(rep: &mut Report, case: u64, world: &World, rng: &mut Rng) {
         if any_wild && index < 200 {
             if let Some(w) = &want {
                 let spk = ScriptBuf::from_bytes(w.clone());
-                match guarded(std::panic::AssertUnwindSafe(|| sd.find_derivation_index_for_spk(&world.secp, &spk, 0..201))) {
-                    Ok(Ok(Some((i, _)))) if i == index => rep.count("find_derivation_index-exact"),
+                // the search range does not have to start at 0
+                let lo = if index > 0 && rng.coin() { rng.below(index as usize + 1) as u32 } else { 0 };
+                if index > 0 {
+                    // a range that ends before the index must not find it
+                    match guarded(std::panic::AssertUnwindSafe(|| sd.find_derivation_index_for_spk(&world.secp, &spk, 0..index))) {
+                        Ok(Ok(None)) => rep.count("find_derivation_index-none-outside-range"),
+                        Ok(other) => rep.violation(case, "C16:find_derivation_index".into(), format!("{}: the scriptPubKey of index {} was 'found' in 0..{}: {:?}", sd, index, index, other.map(|o| o.map(|x| x.0)))),
+                        Err(m) => rep.violation(case, format!("C16:panic:find_derivation_index:{}", norm_loc(&last_panic_loc())), format!("{} on {}", m, sd)),
+                    }
+                }
+                match guarded(std::panic::AssertUnwindSafe(|| sd.find_derivation_index_for_spk(&world.secp, &spk, lo..201))) {
+                    Ok(Ok(Some((i, dd)))) if i == index && dd.script_pubkey() == spk => rep.count("find_derivation_index-exact"),
                     Ok(other) => {
                         // several indices can only collide if the descriptor ignores the index (no wildcard key used): not here
-                        rep.violation(case, "C16:find_derivation_index".into(), format!("{}: looked for the scriptPubKey of index {}, got {:?}", sd, index, other.map(|o| o.map(|x| x.0))));
+                        rep.violation(case, "C16:find_derivation_index".into(), format!("{}: looked for the scriptPubKey of index {} in {}..201, got {:?}", sd, index, lo, other.map(|o| o.map(|x| x.0))));
                     }
                     Err(m) => rep.violation(case, format!("C16:panic:find_derivation_index:{}", norm_loc(&last_panic_loc())), format!("{} on {}", m, sd)),
                 }
@@ -380,8 +390,10 @@ fn check_sortedmulti(rep: &mut Report, case: u64, world: &World, rng: &mut Rng) 
     let ids = &ids[..n];
     let wrapper = *rng.pick(&["wsh(sortedmulti(@))", "sh(sortedmulti(@))", "sh(wsh(sortedmulti(@)))", "tr(I,sortedmulti_a(@))"]);
     let tap = wrapper.starts_with("tr");
+    // tapscript keys may be written as full 33-byte keys (both parities): the order is still by x-only bytes
+    let tap_full_keys = tap && rng.coin();
     let mk = |order: &[usize]| {
-        let ks: Vec<String> = order.iter().map(|i| if tap { world.keys[*i].xonly_hex.clone() } else { world.keys[*i].compressed_hex.clone() }).collect();
+        let ks: Vec<String> = order.iter().map(|i| if tap && !tap_full_keys { world.keys[*i].xonly_hex.clone() } else { world.keys[*i].compressed_hex.clone() }).collect();
         wrapper.replace('@', &format!("{},{}", k, ks.join(","))).replace('I', &world.keys[(ids[0] + 1) % 8].xonly_hex)
     };
     let mut spks = std::collections::BTreeSet::new();
